@@ -1034,6 +1034,21 @@ theorem generator_adjacency_spec (n : Nat) (es : List (Nat × Nat)) (hs : Simple
     have := hs.1 e he
     simp only [sameLink] at hse; omega
 
+/-- **the source of the two igraph-backed generators is what the model says** (regenerated on every
+run): the first branch of `ErdosRenyi` is taken iff only `link_probability` is given and calls
+`Erdos_Renyi(n=n_nodes, p=link_probability)`, the second iff only `n_links` is given and calls
+`Erdos_Renyi(n=n_nodes, m=n_links)` (arguments normalised by the translator), `WattsStrogatz` calls
+`Watts_Strogatz(dim=1, size=N, nei=k, p=p)`, and both return the plain adjacency read-out — no
+`simplify()`, no post-processing. -/
+theorem source_generators :
+    (∀ p m, erTest1 p m = (p && !m)) ∧ (∀ p m, erTest2 p m = (!p && m)) ∧
+    erBranch1 = .byProbability ∧ erBranch2 = .byLinkCount ∧
+    erReturn = "np.array(graph.get_adjacency(type=2).data)" ∧
+    wsCall = [("dim", "1"), ("nei", "k"), ("p", "p"), ("size", "N")] ∧
+    wsReturn = "np.array(graph.get_adjacency(type=2).data)" := by
+  refine ⟨fun p m => by cases p <;> cases m <;> rfl, fun p m => by cases p <;> cases m <;> rfl,
+    rfl, rfl, by decide, by decide, by decide⟩
+
 /-- **`Network.ErdosRenyi`: exactly the prescribed number of links.**  The call is refused
 (`ValueError`) exactly when both or neither of `link_probability` / `n_links` are given; with
 `n_links` alone igraph is asked for `m = n_links` links, and for the simple graph with that many links it
@@ -1046,8 +1061,9 @@ theorem erdosRenyi_spec (hasP hasM : Bool) (n nLinks : Nat) (es : List (Nat × N
     ∃ F, fromEdges n es = some F ∧ (∀ a b, F a b = F b a) ∧ (∀ a, F a a = false) ∧
       (erdosRenyiCall hasP hasM = some .byLinkCount → total F n n = 2 * (nLinks : Int)) := by
   obtain ⟨F, hF, sym, lf, -, -, -, htot⟩ := generator_adjacency_spec n es hs
-  refine ⟨by cases hasP <;> cases hasM <;> simp [erdosRenyiCall],
-    by cases hasP <;> cases hasM <;> simp [erdosRenyiCall], F, hF, sym, lf, ?_⟩
+  refine ⟨by cases hasP <;> cases hasM <;> simp [erdosRenyiCall, erTest1, erTest2, erBranch1, erBranch2],
+    by cases hasP <;> cases hasM <;> simp [erdosRenyiCall, erTest1, erTest2, erBranch1, erBranch2],
+    F, hF, sym, lf, ?_⟩
   intro hc
   rw [htot, hm hc]
 
